@@ -106,11 +106,29 @@ func (l *lexer) newline() {
 // errorf returns a syntax error at the current lexer position with a message
 // formatted according to the format specifier.
 func (l *lexer) errorf(format string, a ...any) *SyntaxError {
+	// The lexer may have advanced the line and the column beyond the start of
+	// the source still to be consumed, so Start and End are computed as the
+	// index of the character at the current line and column.
+	start := 0
+	line, column := 1, 1
+	for start < len(l.text) && (line < l.line || line == l.line && column < l.column) {
+		if c := l.text[start]; c == '\n' {
+			line++
+			column = 1
+		} else if isStartChar(c) {
+			column++
+		}
+		start++
+	}
+	// Skip the continuation bytes of the last character.
+	for start < len(l.text) && !isStartChar(l.text[start]) {
+		start++
+	}
 	pos := ast.Position{
 		Line:   l.line,
 		Column: l.column,
-		Start:  len(l.text) - len(l.src),
-		End:    len(l.text) - len(l.src),
+		Start:  start,
+		End:    start,
 	}
 	return syntaxError(&pos, format, a...)
 }
